@@ -591,6 +591,57 @@ fn longline_space(thorough: bool) -> Space {
     };
     Space::new("longline", total, run, desc).sandboxed(sb(4))
 }
+/// The file-based entry point keeps the same fixed window: a file of many short lines (that leave next to nothing
+/// in the table) is parsed from disk with the live heap bounded independently of the file's size.
+const FROM_FILE_SIZES: &[usize] = &[64 * 1024, 1 << 20, 6 << 20, 24 << 20];
+fn from_file_space() -> Space {
+    let total = FROM_FILE_SIZES.len() as u64 * 2;
+    let desc = |idx: u64| json!({"class": "from_file", "file_bytes": FROM_FILE_SIZES[(idx / 2) as usize], "lines": if idx % 2 == 0 { "INFO lines" } else { "one PUBLIC record, then INFO lines" }});
+    let run = move |idx: u64, l: &mut Local| {
+        let size = FROM_FILE_SIZES[(idx / 2) as usize];
+        let mut data = MODULE.to_vec();
+        if idx % 2 == 1 {
+            data.extend_from_slice(b"PUBLIC 2000 0 p\n");
+        }
+        let mut k = 0u64;
+        while data.len() < size {
+            data.extend_from_slice(format!("INFO filler line number {k:x} with some text behind it to make it longer\n").as_bytes());
+            k += 1;
+        }
+        let path = std::env::temp_dir().join(format!("verif-c09-{}-{idx}.sym", std::process::id()));
+        std::fs::write(&path, &data).expect("c09: cannot write the scratch symbol file");
+        let len = data.len();
+        drop(data);
+        l.eval();
+        let base = alloc::reset_peak();
+        let got = guard(|| SymbolFile::from_file(&path));
+        let peak = alloc::peak_since(base);
+        let _ = std::fs::remove_file(&path);
+        match got {
+            Err(p) => {
+                l.panic_violation(&p, json!({"file_bytes": len}));
+                return;
+            }
+            Ok(Err(e)) => l.violation("from_file: a valid file is rejected", format!("{e}"), json!({"file_bytes": len})),
+            Ok(Ok(t)) => {
+                l.outcome("from_file: parsed");
+                l.distinct(&("from_file", idx, t.publics.len()));
+                if t.publics.len() != (idx % 2) as usize {
+                    l.violation("from_file: table differs", format!("{} PUBLIC records", t.publics.len()), json!({"file_bytes": len}));
+                }
+            }
+        }
+        let bound = 2 * MAX + (1 << 20);
+        if alloc_counting() && peak > bound {
+            l.violation(
+                "alloc@SymbolFile::from_file: live heap grows with the size of the file",
+                format!("peak live heap {peak} bytes above baseline while parsing a {len}-byte file of short lines from disk; bound {bound} = 2*MAX + 1 MiB"),
+                json!({"peak": peak, "file_bytes": len}),
+            );
+        }
+    };
+    Space::new("from-file-window", total, run, desc).sandboxed(sb(1))
+}
 fn alloc_counting() -> bool {
     // counting is only switched on in sandbox workers and sandboxed replays
     let b = alloc::reset_peak();
@@ -622,7 +673,7 @@ fn main() {
         def.extra.insert("long_line_content_lengths".into(), json!(lengths(ctx.tier == Tier::Thorough)));
         def.extra.insert("wall_budget_ms".into(), json!(WALL_MS));
         def.extra.insert("hard_cap_bytes".into(), json!(HARD_CAP));
-        def.spaces = vec![longline_space(ctx.tier == Tier::Thorough), fields_space(), seqs_space(depth), top_seqs_space(4), corrupt_space(), bytes3_space()];
+        def.spaces = vec![longline_space(ctx.tier == Tier::Thorough), from_file_space(), fields_space(), seqs_space(depth), top_seqs_space(4), corrupt_space(), bytes3_space()];
         // ---- part (d): growth / discard-to-newline recovery driven exhaustively in the scaled build
         // (cfg rust_minidump_verif_smallbuf, INITIAL 16 / MAX 256), in a child process
         let tier_name = ctx.tier.name();
